@@ -17,6 +17,66 @@ pub struct Harness {
     pub replay: Box<dyn Fn(&[usize]) -> ExecResult>,
 }
 
+/// Wrap a threaded (schx) harness into the common interface.
+pub fn th_harness(prop: &'static str, h: crate::thworld::ThHarness) -> Harness {
+    use crate::thworld::run_schedule;
+    let h = std::rc::Rc::new(h);
+    let h1 = h.clone();
+    let h2 = h.clone();
+    Harness {
+        name: h.name.clone(),
+        bounds: Bounds { depth: 0, dev: h.bound, d_all: 0, merge: false, shard: (0, 1), cap_s: h.cap_s },
+        describe: h.describe.clone(),
+        run: Box::new(move |b| {
+            let mut stats = Stats::default();
+            let mut sx = crate::schx::Stats::default();
+            let mut found: Vec<seqx::Found> = Vec::new();
+            let mut outcomes = std::collections::HashSet::new();
+            let mut states = std::collections::HashSet::new();
+            let mut samples: Vec<Vec<String>> = Vec::new();
+            let mut run_one = |prefix: &[usize]| {
+                let want_trace = samples.len() < 2;
+                let r = run_schedule(&h1, prop, prefix, want_trace);
+                outcomes.insert(r.outcome);
+                states.insert(crate::report::hash_str(&format!("{:?}", r.exec.choices)));
+                if want_trace && r.exec.points.len() > 4 {
+                    samples.push(r.exec.trace.clone());
+                }
+                for v in r.violations {
+                    if !found.iter().any(|f| f.violation.sig == v.sig && f.violation.prop == v.prop) {
+                        let mut hist = vec![format!("schedule choices {:?}", r.exec.choices)];
+                        hist.extend(r.exec.deadlocks.iter().map(|d| format!("deadlock: {d}")));
+                        found.push(seqx::Found { violation: v, choices: r.exec.choices.clone(), history: hist });
+                    }
+                }
+                r.exec
+            };
+            crate::schx::explore(b.dev, b.shard, b.cap_s, &mut run_one, &mut sx);
+            stats.executions = sx.executions;
+            stats.transitions = sx.points;
+            stats.max_depth = sx.max_points;
+            stats.capped = sx.capped;
+            stats.states = states;
+            stats.outcomes = outcomes;
+            stats.found = found;
+            stats.samples = samples;
+            stats
+        }),
+        replay: Box::new(move |choices| {
+            let r = run_schedule(&h2, prop, choices, true);
+            ExecResult {
+                violations: r.violations,
+                history: r.exec.trace.clone(),
+                enabled: Vec::new(),
+                key: 0,
+                observation: r.outcome,
+                transitions: r.exec.points.len() as u64,
+                bad_choice: r.exec.bad_choice,
+            }
+        }),
+    }
+}
+
 pub fn ops_harness(name: &str, prop: &'static str, cfg: Cfg, bounds: Bounds) -> Harness {
     let c1 = cfg.clone();
     let c2 = cfg.clone();
@@ -32,7 +92,7 @@ pub fn ops_harness(name: &str, prop: &'static str, cfg: Cfg, bounds: Bounds) -> 
             "faults": cfg.faults, "errors": cfg.errors, "shorts": cfg.shorts,
             "allow_drop": cfg.allow_drop, "allow_fresh_waker": cfg.allow_fresh,
             "cancel_may_lose": cfg.allow_cancel_lose,
-            "raw_cqes": cfg.raw_cqes.len(), "canary": cfg.canary,
+            "raw_cqes": cfg.raw_cqes.len(), "canary": cfg.canary, "zc_error_posts_notification": cfg.zc_error_notif,
             "depth": bounds.depth, "deviations": bounds.dev, "d_all": bounds.d_all, "merge": bounds.merge,
         }),
         bounds,
@@ -56,6 +116,7 @@ pub fn harnesses(prop: &str, tier: &str) -> Vec<Harness> {
         "C05" => c05(quick),
         "C06" => c06(quick),
         "C09" => c09(quick),
+        "C11" => c11(quick),
         _ => Vec::new(),
     }
 }
@@ -146,6 +207,23 @@ fn c05(quick: bool) -> Vec<Harness> {
 
 fn c03(quick: bool) -> Vec<Harness> {
     let mut v = Vec::new();
+    {
+        use crate::thworld::{C03Cfg, c03_threads};
+        let pb = if quick { 2 } else { 3 };
+        for (sq, prefill, kind, repoll, tasks) in [
+            (2u32, 0usize, Kind::ReadVec, false, 1usize),
+            (2, 0, Kind::ReadVec, true, 1),
+            (2, 0, Kind::SendZc, true, 1),
+            (1, 1, Kind::ReadVec, false, 1),
+            (1, 1, Kind::ReadVec, false, 2),
+            (2, 2, Kind::ReadVec, true, 1),
+        ] {
+            if quick && tasks > 1 {
+                continue;
+            }
+            v.push(th_harness("C03", c03_threads(C03Cfg { sq, prefill, kind, repoll_fresh: repoll, tasks, max_polls: 5 }, pb)));
+        }
+    }
     let d = |q: usize, t: usize| if quick { q } else { t };
     for sq in [1u32, 2, 4] {
         let mut cfg = Cfg::base("C03");
@@ -168,6 +246,20 @@ fn c03(quick: bool) -> Vec<Harness> {
 
 fn c04(quick: bool) -> Vec<Harness> {
     let mut v = Vec::new();
+    {
+        use crate::thworld::{C04Cfg, c04_threads};
+        let pb = if quick { 2 } else { 3 };
+        for (sq, c0, submitters, per, sqpoll) in [
+            (1u32, 0u32, 2usize, 1usize, false),
+            (1, 0xffff_ffff, 2, 1, false),
+            (2, 0, 2, 2, false),
+            (2, 0xffff_fffe, 3, 1, false),
+            (1, 0, 2, 1, true),
+            (2, 0xffff_ffff, 2, 2, true),
+        ] {
+            v.push(th_harness("C04", c04_threads(C04Cfg { sq, c0, submitters, per, sqpoll, polls: 2 }, pb)));
+        }
+    }
     let d = |q: usize, t: usize| if quick { q } else { t };
     for sq in [1u32, 2, 4] {
         for &c0 in WRAP_C0 {
@@ -186,6 +278,28 @@ fn c04(quick: bool) -> Vec<Harness> {
             v.push(ops_harness(&format!("sq{sq}-c0={c0:#x}"), "C04", cfg, bounds(d(9, 12), d(2, 3), 3)));
         }
     }
+    v
+}
+
+fn c11(quick: bool) -> Vec<Harness> {
+    use crate::thworld::{C11Cfg, RingMode, c11};
+    let mut v = Vec::new();
+    let pb = if quick { 2 } else { 3 };
+    for mode in [RingMode::Default, RingMode::KernelThread, RingMode::SingleIssuer, RingMode::SingleIssuerDefer] {
+        for polls in [vec![None], vec![Some(0), None], vec![None, None]] {
+            for (wakers, each) in [(1usize, 1usize), (1, 2), (2, 1)] {
+                if quick && wakers * each > 1 && polls.len() > 1 && mode != RingMode::Default {
+                    continue;
+                }
+                let need = polls.iter().filter(|p| p.is_none()).count();
+                if wakers * each < need {
+                    continue; // Not enough wakes to end every blocking poll.
+                }
+                v.push(th_harness("C11", c11(C11Cfg { mode, polls: polls.clone(), wakers, wakes_each: each, sq: 2, sq_full: false }, pb)));
+            }
+        }
+    }
+    v.push(th_harness("C11", c11(C11Cfg { mode: RingMode::Default, polls: vec![None], wakers: 1, wakes_each: 1, sq: 1, sq_full: true }, pb)));
     v
 }
 
@@ -217,7 +331,11 @@ fn c09(quick: bool) -> Vec<Harness> {
             cfg.direct_table = Some(4);
         }
         cfg.report = vec!["C09"];
-        v.push(ops_harness(&format!("{k:?}"), "C09", cfg, bounds(d(8, 10), d(1, 2), 4)));
+        v.push(ops_harness(&format!("{k:?}"), "C09", cfg.clone(), bounds(d(8, 10), d(1, 2), 4)));
+        if k.class() == crate::ops::Class::TwoStep {
+            cfg.zc_error_notif = false;
+            v.push(ops_harness(&format!("{k:?}-error-without-notif"), "C09", cfg, bounds(d(8, 10), d(1, 2), 4)));
+        }
     }
     v
 }
@@ -252,7 +370,11 @@ fn c06(quick: bool) -> Vec<Harness> {
     for k in kinds {
         let mut cfg = drop_cfg("C06", vec![k]);
         cfg.report = vec!["C06"];
-        v.push(ops_harness(&format!("{k:?}"), "C06", cfg, bounds(d(7, 9), d(2, 3), 4)));
+        v.push(ops_harness(&format!("{k:?}"), "C06", cfg.clone(), bounds(d(7, 9), d(2, 3), 4)));
+        if k.class() == crate::ops::Class::TwoStep {
+            cfg.zc_error_notif = false;
+            v.push(ops_harness(&format!("{k:?}-error-without-notif"), "C06", cfg, bounds(d(7, 9), d(2, 3), 4)));
+        }
     }
     for (a, b) in [(ReadVec, SendZc), (ReadVec, WriteVec), (MultishotRead, ReadVec)] {
         for sq in [1u32, 2] {
@@ -279,7 +401,11 @@ fn c01(quick: bool) -> Vec<Harness> {
     for k in kinds {
         let mut cfg = drop_cfg("C01", vec![k]);
         cfg.report = vec!["C01"];
-        v.push(ops_harness(&format!("{k:?}"), "C01", cfg, bounds(d(6, 8), d(2, 3), 4)));
+        v.push(ops_harness(&format!("{k:?}"), "C01", cfg.clone(), bounds(d(6, 8), d(2, 3), 4)));
+        if k.class() == crate::ops::Class::TwoStep {
+            cfg.zc_error_notif = false;
+            v.push(ops_harness(&format!("{k:?}-error-without-notif"), "C01", cfg, bounds(d(6, 8), d(2, 3), 4)));
+        }
     }
     for (a, b) in [(ReadVec, SendZc), (RecvFrom, WriteVectored2), (MultishotRead, Accept), (ReadPool, Statx)] {
         let mut cfg = drop_cfg("C01", vec![a, b]);
@@ -289,7 +415,7 @@ fn c01(quick: bool) -> Vec<Harness> {
     v
 }
 
-pub const ALL: &[&str] = &["C01", "C02", "C03", "C04", "C05", "C06", "C09"];
+pub const ALL: &[&str] = &["C01", "C02", "C03", "C04", "C05", "C06", "C09", "C11"];
 
 pub fn assumptions(prop: &str) -> Vec<String> {
     let mut v = vec![
